@@ -49,4 +49,7 @@ def run(P, R, L):
     R.once(blind.bsrch1_lower_bound_searches, P, R, L)
     R.clause("BLK-1", "the block iterator's cursor: one step behind is_valid(), parked at len when a step is refused, first = 0, last = len - 1")
     R.once(blind.blk1_block_cursor, P, R, L)
+    from . import blind as _blind
+    R.clause("ENUM-1", "the hand-written tag decoders (Operation, BlockType, compression type, manifest field tags) invert the enums' discriminants")
+    R.once(_blind.enum1_tag_decoders, P, R, L)
     R.not_decided += ["prefix compression, separators, seek positions, iteration order (computed bytes)"]
